@@ -273,6 +273,55 @@ func c09LargeListsScenario(x *mc.X) *mc.Outcome {
 	return out
 }
 
+// Many records that are rejected (a scalar where a record is expected) next to sibling records that are fine:
+// whatever the library counts while rejecting must not spill over into the siblings, in any visit order.
+type c09RejRec struct{ A string }
+
+type c09Rej struct {
+	Recs []c09RejRec
+	Meta c09RejRec
+	More c09RejRec
+}
+
+func c09RejectedRecordsScenario(x *mc.X) *mc.Outcome {
+	n := []int{1, 15, 16, 17, 31, 32, 33, 63, 64, 65, 100, 300}[x.Choose(12, "rejected records")]
+	recs := make([]any, n)
+	for i := range recs {
+		recs[i] = "not a record"
+	}
+	metaOK := x.Bool("meta valid")
+	run := func(om zh.OrderMode) *Obs {
+		zh.Reset()
+		zh.Install(x, zh.PoolLIFO, om)
+		rec := func() z.ZogSchema { return z.Struct(z.Schema{"a": z.String().Min(2).Required()}) }
+		s := z.Struct(z.Schema{"recs": z.Slice(rec()), "meta": rec(), "more": rec()})
+		var d c09Rej
+		meta := map[string]any{"a": "ok"}
+		if !metaOK {
+			meta = map[string]any{"a": "x"}
+		}
+		o := RunParse(s, map[string]any{"recs": recs, "meta": meta, "more": map[string]any{"a": "fine"}}, reflect.ValueOf(&d))
+		zh.Reset()
+		return o
+	}
+	bo, po := run(zh.OrderSorted), run(zh.OrderFree)
+	out := &mc.Outcome{Traces: 2, Nontrivial: true, Sig: fmt.Sprintf("rejected|%d|%v|%d", n, metaOK, len(bo.Issues))}
+	out.Sample = map[string]any{"rejected_records": n, "meta_valid": metaOK, "issues": len(bo.Issues)}
+	want := n
+	if !metaOK {
+		want++
+	}
+	switch {
+	case bo.Panic != "" || len(bo.Issues) != want:
+		x.Note("Struct{recs: Slice(Struct{a}), meta: Struct{a}, more: Struct{a}}; %d scalars where records are expected; meta valid=%v", n, metaOK)
+		out.Viol = append(out.Viol, &mc.Violation{Key: "C09:rejected-records:count", What: "one issue per rejected record, plus the sibling record's own issues, is not what was reported", Expected: fmt.Sprint(want), Observed: fmt.Sprintf("panic=%q %d issues", bo.Panic, len(bo.Issues))})
+	case bo.Panic != po.Panic || !eqStrings(bo.IssueStrings(), po.IssueStrings()):
+		x.Note("%d scalars where records are expected; meta valid=%v", n, metaOK)
+		out.Viol = append(out.Viol, &mc.Violation{Key: "C09:rejected-records:order", What: "what sibling records report depends on whether the rejected records were visited before or after them", Expected: fmt.Sprintf("%d issues", len(bo.Issues)), Observed: fmt.Sprintf("%d issues", len(po.Issues))})
+	}
+	return out
+}
+
 // Sibling nodes whose user functions reject input by returning ONE shared error value (a package-level sentinel,
 // as Go code usually declares its errors): a plain error, a hand-built *ZogIssue without a path, one with a path.
 // Where each occurrence is filed must not depend on which sibling was visited first.
@@ -357,6 +406,7 @@ func init() {
 			items = append(items, Item{Name: "input-keys-flat", MaxDevs: -1, Run: c09FlatKeysScenario})
 			items = append(items, Item{Name: "large-sibling-lists", MaxDevs: -1, Run: c09LargeListsScenario})
 			items = append(items, Item{Name: "shared-error-value", MaxDevs: -1, Run: c09SharedIssueScenario})
+			items = append(items, Item{Name: "rejected-records-next-to-records", MaxDevs: -1, Run: c09RejectedRecordsScenario})
 			// every message is the formatter's answer for its own issue, whatever was formatted just before it:
 			// the shape grammar and the small catalogue skeletons again, under a formatter that names path and code
 			for _, it := range coreItemsFiltered(tier, c09Scenario, func(a *Alpha) { a.Lite = true }, []int{0, 1}, 2, func(ns NamedSkel) bool {
